@@ -3,7 +3,8 @@
    G lines run the model's NewConfig with that table as the oracle [fixed]; a lookup that the table does
    not contain prints ORACLE-MISS (the model asked for a draw the implementation's code cannot make).
    R lines are an acceptor: the implementation's set of observed lengths is printed back iff every
-   length is produced by the model for some draw in range; otherwise the model's full set is printed. *)
+   length is produced by the model for some draw in range; otherwise the model's full set is printed.
+   W lines are an acceptor too (draws reconstructed from the observed write sizes); Q compares floor sqrt. *)
 open Model
 open Common
 
@@ -106,6 +107,20 @@ let () =
         let tp = opt_pattern rest in
         let ((m, r), s) = le_send_decision tp (client = "1") (used = "1") in
         Printf.printf "%s %s %s\n" (dec_of_z m) (dec_of_z r) (bool_s s)
+      | "W" :: n :: rest ->
+        (* acceptor: the draws are reconstructed from the observed sizes (draw = size - minLen when that is a
+           legal draw, the largest draw otherwise); the model's plan for those draws is printed *)
+        let tp = opt_pattern rest in
+        let n = int_of_string n in
+        let data = List.init n (fun _ -> N0) in
+        let zn = z_of_int n in
+        let mn = int_of_z (frag_min_len zn) and mx = int_of_z (frag_max_len zn) in
+        let observed = if obs = "-" then [] else List.map int_of_string (split_ws obs) in
+        let draws = List.map (fun p -> z_of_int (if p >= mn && p <= mx then p - mn else mx - mn)) observed in
+        let plan = tcp_writes tp data draws in
+        let sizes = List.map (fun p -> string_of_int (List.length p)) plan in
+        print_endline (if sizes = [] then "-" else String.concat " " sizes)
+      | ["Q"; n] -> print_endline (dec_of_z (xb_zadd (frag_min_len (z_of_dec n)) (z_of_int (-1))))
       | _ -> print_endline "?"
     with
     | Oracle_miss k -> print_endline ("ORACLE-MISS " ^ k)
